@@ -106,6 +106,35 @@ class ProgressProbe:
             self.on_after(impl)
 
 
+class NormProbe:
+    """Records the norm of every state handed to a (physical) observable: wraps
+    pulser.backend.observable.Observable.__call__, the one door every observable goes through."""
+
+    def __init__(self) -> None:
+        self.worst = 0.0
+        self.worst_at: tuple | None = None
+        self.calls = 0
+
+    def install(self, rb: Any) -> None:
+        from pulser.backend.observable import Observable
+
+        def before(obs: Any, config: Any, t: Any, state: Any, *a: Any, **k: Any) -> None:
+            tag = getattr(obs, "tag", "?")
+            if tag == "statistics" or not hasattr(state, "norm"):
+                return None
+            try:
+                nrm = float(state.norm())
+            except Exception:
+                return None
+            self.calls += 1
+            dev = abs(nrm - 1.0)
+            if dev > self.worst:
+                self.worst, self.worst_at = dev, (tag, float(t), nrm)
+            return None
+
+        wrap_method(rb, Observable, "__call__", before=before)
+
+
 class Outcome:
     """What one incarnation produced."""
 
